@@ -95,7 +95,8 @@ Inductive exc :=
 | EAssertion         (* assertActive / begin on a running transaction *)
 | EAttribute         (* ConnWrapper method access on a Python without inspect.getargspec *)
 | EBadHandle         (* harness: the slot is empty *)
-| EDuplicate.        (* DuplicateEntryError: the UNIQUE column refuses the statement *)
+| EDuplicate         (* DuplicateEntryError: the UNIQUE column refuses the statement *)
+| EPickling.         (* pickle.PicklingError: __getstate__ refuses an instance bound to an explicit connection *)
 
 Inductive stmt :=
 | SSelectOne (sd : side) (id : Z)
@@ -489,6 +490,22 @@ Definition so_sync_update (sd : side) (o : nat) : M unit :=
     db_update_cols sd (i_id i) (i_pending i) ;;; upd_inst sd o (fun i => i_with_pending i (no_queue (i_pending i)))
   else ret tt.
 
+(* sqlmeta._perConnection: the instance was made with an explicit connection other than its class's.  The class of the
+   fixture lives on the parent connection, so these are exactly the instances obtained through the Transaction
+   (Cls.get(id, connection=trans), Cls(connection=trans, ...), a select through trans, trans.Cls(...)) *)
+Definition per_conn (sd : side) : bool := match sd with Txn => true | Par => false end.
+
+(* pickle.dumps(inst) -> __getstate__: an instance bound to an explicit connection is refused (PicklingError) BEFORE anything
+   else happens; else a lazyUpdate instance with queued assignments writes them first (syncUpdate: one UPDATE; an exception
+   of the statement leaves pickle.dumps); the pickled state is the id and whatever column attributes the instance carries *)
+Definition so_pickle (sd : side) (o : nat) : M (Z * list (option val)) :=
+  if per_conn sd then raise EPickling
+  else
+    i <- gets (fun s => get_inst s sd o) ;;
+    (if lazy cfg && dirty i then so_sync_update sd o else ret tt) ;;;
+    i' <- gets (fun s => get_inst s sd o) ;;
+    ret (i_id i', i_vals i').
+
 (* sync: write what is queued (lazyUpdate), then reload *)
 Definition so_reload (sd : side) (o : nat) : M unit :=
   i <- gets (fun s => get_inst s sd o) ;;
@@ -601,6 +618,7 @@ Inductive op :=
 | OExpire (h : nat)
 | OSync (h : nat)
 | OSyncUpdate (h : nat)
+| OPickle (h : nat)                                 (* pickle.dumps(instance) *)
 | ODrop (h : nat)
 | OCull (sd : side)
 | OCommit (close : bool)
@@ -612,7 +630,8 @@ Inductive outv :=
 | RObj (id : Z) (same_as : option nat)     (* an object: its row id, and the slot that already held this very object *)
 | RObjs (l : list (Z * option nat))
 | RVal (v : val)
-| RNum (n : Z).
+| RNum (n : Z)
+| RState (id : Z) (vals : list (option val)).   (* a pickled instance: its id and the column attributes in the state *)
 
 Definition slot_of (s : st) (sd : side) (o : nat) : option nat :=
   (fix go (l : list (option (side * nat))) (n : nat) : option nat :=
@@ -669,6 +688,7 @@ Definition run_op (o : op) : M outv :=
   | OExpire h => x <- handle h ;; so_expire (fst x) (snd x) ;;; ret RNone
   | OSync h => x <- handle h ;; so_sync (fst x) (snd x) ;;; ret RNone
   | OSyncUpdate h => x <- handle h ;; so_sync_update (fst x) (snd x) ;;; ret RNone
+  | OPickle h => x <- handle h ;; p <- so_pickle (fst x) (snd x) ;; ret (RState (fst p) (snd p))
   | ODrop h => modify (fun s => with_slots s (set_nth h None (slots s))) ;;; ret RNone
   | OCull sd =>
       c <- gets (fun s => cch s sd) ;;
@@ -689,7 +709,7 @@ Fixpoint run (s : st) (ops : list op) : st :=
 Definition op_side (s : st) (o : op) : option side :=
   match o with
   | OCreate sd _ _ _ | OGet sd _ _ | OSelect sd _ _ | OCount sd | OCull sd => Some sd
-  | ORead h _ | OSet h _ _ | ODestroy h | OExpire h | OSync h | OSyncUpdate h =>
+  | ORead h _ | OSet h _ _ | ODestroy h | OExpire h | OSync h | OSyncUpdate h | OPickle h =>
       match nth h (slots s) None with Some x => Some (fst x) | None => None end
   | ODrop h => match nth h (slots s) None with Some x => Some (fst x) | None => None end
   | OCommit _ | ORollback | OBegin => Some Txn
@@ -802,8 +822,9 @@ Definition step_ok (s : st) (o : op) : bool :=
             end
       | _ => true
       end
-  | OSyncUpdate h | OSync h =>
-      (* writing the queue of a parent-side instance: as an assignment, for every queued column *)
+  | OSyncUpdate h | OSync h | OPickle h =>
+      (* writing the queue of a parent-side instance (pickling a lazyUpdate instance does, too): as an assignment, for every
+         queued column *)
       match nth h (slots s) None, pending s with
       | Some (Par, x), None =>
           negb (lazy cfg || is_sync_update o) || negb (dirty (get_inst s Par x)) ||
